@@ -77,11 +77,11 @@ func fsatomicChild(inb []byte) (any, error) {
 // ---------------------------------------------------------------------------
 
 type mcpMutateCase struct {
-	Name    string         `json:"name"`
-	Tool    string         `json:"tool"`     // config_apply | management_endpoint_upsert | management_endpoint_delete
-	Initial *string        `json:"initial"`  // file content before the call; null = file does not exist
-	Args    map[string]any `json:"args"`     // tool arguments (path is added; __ADMIN__ in strings = health listener address)
-	Health  string         `json:"health"`   // "ok" | "503" | "closed" : what the admin health endpoint does
+	Name    string            `json:"name"`
+	Tool    string            `json:"tool"`    // config_apply | management_endpoint_upsert | management_endpoint_delete
+	Initial *string           `json:"initial"` // file content before the call; null = file does not exist
+	Args    map[string]any    `json:"args"`    // tool arguments (path is added; __ADMIN__ in strings = health listener address)
+	Health  string            `json:"health"`  // "ok" | "503" | "closed" : what the admin health endpoint does
 	EnvSet  map[string]string `json:"env_set"`
 }
 
